@@ -215,6 +215,47 @@ def run_case(case):
             return map(f, idxs)
         if k == "iter":
             return iter([f(i) for i in idxs])
+        # ---- container OBJECTS of the library / of collections holding the (frozen) ballots ------------------
+        if frozen and k.startswith(("fprofile", "gen_over_fprofile", "multi", "counter", "dict")):
+            from collections import Counter as _Counter
+            seq = [f(i) for i in idxs]
+
+            def fprofile(items, voff=False):
+                if voff:
+                    return ProfileC(items, instance=inst, ballot_validation=False)
+                return ProfileC(items, instance=inst, ballot_type=FrozenC)
+            if k == "fprofile":
+                return fprofile(seq)
+            if k == "fprofile_voff":
+                return fprofile(seq, voff=True)
+            if k == "fprofile_grown":
+                pr = fprofile(seq[:1])
+                for x in seq[1:2]:
+                    pr.append(x)
+                pr.extend(seq[2:])
+                return pr
+            if k == "fprofile_slice":
+                return fprofile(seq + seq[:1])[0:len(seq)]
+            if k == "fprofile_copy":
+                return fprofile(seq).copy()
+            if k == "fprofile_add":
+                h = len(seq) // 2
+                # (Profile.__add__ re-validates against the generic Ballot type when validation is on: a list profile
+                #  whose ballot_type is a frozen class cannot be added on HEAD -- validation off on the left)
+                return fprofile(seq[:h], voff=True) + fprofile(seq[h:])
+            if k == "gen_over_fprofile":
+                pr = fprofile(seq)
+                return (b for b in pr)
+            if k == "multi":
+                return MultiC(seq, instance=inst)
+            if k == "multi_grown":
+                m2 = MultiC(instance=inst)
+                m2.extend(seq)
+                return m2
+            if k == "counter":
+                return _Counter(seq)
+            if k == "dict":
+                return dict(_Counter(seq))
         raise ValueError("unknown iterable kind " + ikind)
 
     def build_profile(idxs, kind, pmode):
@@ -226,6 +267,15 @@ def run_case(case):
             pr = ProfileC(instance=inst)
             pr += feed(idxs, kind)
             return pr
+        if pmode == "slice":
+            items = list(feed(idxs, kind))
+            return ProfileC(items + items[:1], instance=inst)[0:len(items)]
+        if pmode == "copy":
+            return ProfileC(feed(idxs, kind), instance=inst).copy()
+        if pmode == "add":
+            items = list(feed(idxs, kind))
+            h = len(items) // 2
+            return ProfileC(items[:h], instance=inst) + ProfileC(items[h:], instance=inst)
         return ProfileC(feed(idxs, kind), instance=inst)
 
     ops = case["ops"]
@@ -241,8 +291,10 @@ def run_case(case):
             mp = build_profile(first[1], ikind, pmode).as_multiprofile()
         elif first[0] == "profile":
             mp = MultiC(profile=build_profile(first[1], ikind, pmode), instance=inst)
+        elif pmode == "pos":
+            mp = MultiC(feed(first[1], ikind, frozen=True), inst)            # positional arguments
         else:
-            mp = MultiC(feed(first[1], ikind, frozen=True), instance=inst)
+            mp = MultiC(init=feed(first[1], ikind, frozen=True), instance=inst)
     if mp is None:
         mp = MultiC(instance=inst)
     for t, op in rest:
@@ -255,6 +307,8 @@ def run_case(case):
             mp.extend(feed(op[1], op[2] if len(op) > 2 else "list", frozen=True))
         elif op[0] == "update_frozen":
             mp.update(feed(op[1], op[2] if len(op) > 2 else "list", frozen=True))     # Counter.update(iterable)
+        elif op[0] == "iadd_frozen":
+            mp += feed(op[1], op[2] if len(op) > 2 else "counter", frozen=True)      # Counter.__iadd__(mapping)
         elif op[0] == "extend_profile":
             mp.extend(build_profile(op[1], op[2] if len(op) > 2 else "list", op[3] if len(op) > 3 else "ctor"))
         elif op[0] == "extend_conv":
